@@ -175,8 +175,14 @@ impl<'w> FnTr<'w> {
     pub fn pop_scope(&mut self, mark: usize) { self.depth -= 1; self.env.truncate(mark); }
 
     pub fn fresh(&mut self, base: &str) -> String {
-        self.temp_counter += 1;
-        format!("{}_{}", base, self.temp_counter)
+        loop {
+            self.temp_counter += 1;
+            let n = format!("{}_{}", base, self.temp_counter);
+            if !self.local_names.contains(&n) && !self.lparams.iter().any(|p| p.name == n) && self.lookup(&n).is_none() {
+                self.local_names.insert(n.clone());
+                return n;
+            }
+        }
     }
 
     /// register (once) a generated Lean parameter
